@@ -4,7 +4,7 @@
 OWN = {
     "C01": {"no_panic"},
     "C02": {"list_not_empty", "preselection_inside_list", "selection_inside_list", "auxiliary_is_the_typed_text", "auxiliary_is_the_composed_text",
-            "returned_list_is_the_scratch_list", "key_appends_one_char_or_nothing"},
+            "returned_list_is_the_scratch_list", "key_appends_one_char_or_nothing", "scratch_list_belongs_to_the_text"},
     "C03": {"parts_concatenate_to_input", "splits_punctuation_word_punctuation", "three_conversions_concatenated", "transliteration_is_a_candidate"},
     "C05": {"warm_context_gives_the_same_list", "warm_context_gives_the_same_preselection"},
     "C06": None,   # fixed_session clauses are all C06's; the phonetic glue set is given explicitly in the module
@@ -21,7 +21,7 @@ OWN = {
     "C16": {"ansi_offers_no_emoji_or_raw_text", "english_candidate_only_when_enabled_and_not_ansi", "english_candidate_iff_enabled_and_not_ansi_and_different",
             "suggestion_carries_the_ansi_switch"},
     "C17": {"punctuation_only_left_untouched", "word_untouched", "leading_quotes_open", "trailing_quotes_close", "smart_quotes_keep_length_and_order",
-            "smart_quotes_keep_preselection"},
+            "smart_quotes_keep_preselection", "smart_quotes_curl_every_candidate"},
     "C18": {"emoticon_offers_its_emoji_and_keeps_the_literal_text", "emoji_name_offers_all_its_emoji_in_table_order_wrapped", "emoticon_offers_its_emoji",
             "bengali_emoji_name_offers_all_its_emoji_in_table_order_wrapped"},
 }
